@@ -434,13 +434,17 @@ CHECKS.update({
              "objects: reported pins and ties, masks afterwards, and the new constraints at every point of the domain.  "
              "Recorded runs (128 / 1152; all four kinds, 2-4 parameters, flat and tied directions, Solve() and manual Step/"
              "Collapse loops): reported disjoint from the mask, mask after = before + reported, never reported twice, every "
-             "later cost call and the final solution satisfy every applied relation exactly, the solve ends.",
+             "later cost call and the final solution satisfy every applied relation exactly, the solve ends.  The "
+             "specification's parameters are additionally EMBEDDED at rotating non-monotone real positions (e.g. [1,8], "
+             "[9,2,11], [3,8,1]) of 12-dimensional monitors and solvers with filler parameters that never collapse (detector "
+             "tables, every loop stop, a third of the recorded runs), so that code depending on the iteration order of a collapse "
+             "set is exercised; expectations remain TLC's.",
         note="trusted: TLC, float-equality interning to ids, reading state(solver._termination) for the masks; premises: small "
              "integer values and dyadic tolerances in the tables, equal-sized product-measure factors (DESIGN F9), applied "
              "relations jointly satisfiable, deterministic objectives, every run has limits; exclusions: collapse_cost interval "
-             "search (mask algebra only), offset=True and CollapseCost inside the solver loop; known findings (pin/tie "
-             "composition order in __collapse_constraints; DE/DE2 incumbent best predating a collapse) are listed per clause in "
-             "known_findings.jsonl",
+             "search (mask algebra only), offset=True and CollapseCost inside the solver loop; fillers never collapse (their history keeps moving / they are masked for the "
+             "spread tests); known findings (pin/tie and chained-tie composition order in __collapse_constraints; DE/DE2 "
+             "incumbent best predating a collapse) are listed per clause in known_findings.jsonl",
         design_ref="DESIGN.md section 4/C11"),
 })
 
